@@ -383,7 +383,17 @@ fn run_direct(ctx: &mut Ctx, fam: Fam, list: &[E], c: &Cfg) {
             for _ in 0..bound {
                 match it.next() {
                     Ok(Some(e)) => v.push(rng_raw_to_e(&e, fam)),
-                    Ok(None) => return Ok(v),
+                    Ok(None) => {
+                        // the end of the list is final: polling again must not run into the next list
+                        for _ in 0..2 {
+                            match it.next() {
+                                Ok(None) => {}
+                                Ok(Some(e)) => return Err(format!("yielded {:?} when polled again after the end of the list {:?}", e, v)),
+                                Err(e) => return Err(format!("{} when polled again after the end of the list {:?}", e, v)),
+                            }
+                        }
+                        return Ok(v);
+                    }
                     Err(e) => return Err(format!("{} after {:?}", e, v)),
                 }
             }
@@ -408,7 +418,16 @@ fn run_direct(ctx: &mut Ctx, fam: Fam, list: &[E], c: &Cfg) {
             for _ in 0..bound {
                 match it.next() {
                     Ok(Some(r)) => items.push(Y { begin: r.begin, end: r.end, x: 0, default: false }),
-                    Ok(None) => return Got { items, err: None },
+                    Ok(None) => {
+                        for _ in 0..2 {
+                            match it.next() {
+                                Ok(None) => {}
+                                Ok(Some(e)) => return Got { items, err: Some(format!("yielded {:?} when polled again after the end of the list", e)) },
+                                Err(e) => return Got { items, err: Some(format!("{} when polled again after the end of the list", e)) },
+                            }
+                        }
+                        return Got { items, err: None };
+                    }
                     Err(e) => return Got { items, err: Some(e.to_string()) },
                 }
             }
@@ -429,7 +448,17 @@ fn run_direct(ctx: &mut Ctx, fam: Fam, list: &[E], c: &Cfg) {
             for _ in 0..bound {
                 match it.next() {
                     Ok(Some(e)) => v.push(loc_raw_to_e(&e, fam)),
-                    Ok(None) => return Ok(v),
+                    Ok(None) => {
+                        // the end of the list is final: polling again must not run into the next list
+                        for _ in 0..2 {
+                            match it.next() {
+                                Ok(None) => {}
+                                Ok(Some(e)) => return Err(format!("yielded {:?} when polled again after the end of the list {:?}", e, v)),
+                                Err(e) => return Err(format!("{} when polled again after the end of the list {:?}", e, v)),
+                            }
+                        }
+                        return Ok(v);
+                    }
                     Err(e) => return Err(format!("{} after {:?}", e, v)),
                 }
             }
@@ -454,7 +483,16 @@ fn run_direct(ctx: &mut Ctx, fam: Fam, list: &[E], c: &Cfg) {
             for _ in 0..bound {
                 match it.next() {
                     Ok(Some(l)) => items.push(Y { begin: l.range.begin, end: l.range.end, x: expr_sel(l.data.0.slice()), default: false }),
-                    Ok(None) => return Got { items, err: None },
+                    Ok(None) => {
+                        for _ in 0..2 {
+                            match it.next() {
+                                Ok(None) => {}
+                                Ok(Some(e)) => return Got { items, err: Some(format!("yielded {:?} when polled again after the end of the list", e)) },
+                                Err(e) => return Got { items, err: Some(format!("{} when polled again after the end of the list", e)) },
+                            }
+                        }
+                        return Got { items, err: None };
+                    }
                     Err(e) => return Got { items, err: Some(e.to_string()) },
                 }
             }
@@ -695,7 +733,7 @@ impl PCfg {
         )
     }
     fn valid(&self, loc: bool) -> bool {
-        if self.skel && !(self.dwo && self.version >= 4) {
+        if self.skel && !self.dwo {
             return false;
         }
         if self.version < 5 {
@@ -707,7 +745,11 @@ impl PCfg {
             }
             // GNU split DWARF (indexed addresses, DW_AT_GNU_addr_base, DW_AT_GNU_ranges_base,
             // .dwo files) is an extension of DWARF 4 only.
-            if self.version < 4 && (self.dwo || self.low == 2 || self.addr_far || self.lbase != 0) {
+            // GNU split DWARF (indexed addresses, DW_AT_GNU_addr_base, DW_AT_GNU_ranges_base,
+            // .dwo files) is also produced for DWARF 2 and 3 (-gdwarf-3 -gsplit-dwarf): there the
+            // extension only appears in its .dwo shape, and the base attributes are given in
+            // DW_FORM_sec_offset (gimli does not read them from DW_FORM_data4/8; not claimed).
+            if self.version < 4 && !self.dwo && (self.low == 2 || self.addr_far || self.lbase != 0) {
                 return false;
             }
         } else {
@@ -878,10 +920,10 @@ fn pbuild(c: &PCfg, loc: bool, list: &[E]) -> (Secs, Option<Secs>, Fam, u64, u64
         }
     } else {
         if addr_base != 0 {
-            bases.push(attr(m::DW_AT_GNU_ADDR_BASE, if c.version >= 4 { m::DW_FORM_SEC_OFFSET } else if c.fmt64 { m::DW_FORM_DATA8 } else { m::DW_FORM_DATA4 }, addr_base));
+            bases.push(attr(m::DW_AT_GNU_ADDR_BASE, if c.version >= 4 || c.dwo { m::DW_FORM_SEC_OFFSET } else if c.fmt64 { m::DW_FORM_DATA8 } else { m::DW_FORM_DATA4 }, addr_base));
         }
         if let Some(b) = lists_base_attr {
-            bases.push(attr(m::DW_AT_GNU_RANGES_BASE, if c.version >= 4 { m::DW_FORM_SEC_OFFSET } else if c.fmt64 { m::DW_FORM_DATA8 } else { m::DW_FORM_DATA4 }, b));
+            bases.push(attr(m::DW_AT_GNU_RANGES_BASE, if c.version >= 4 || c.dwo { m::DW_FORM_SEC_OFFSET } else if c.fmt64 { m::DW_FORM_DATA8 } else { m::DW_FORM_DATA4 }, b));
         }
     }
     let order = |bases: &[Attr], low: &Option<Attr>| -> Vec<Attr> {
@@ -993,7 +1035,14 @@ fn run_plumb(ctx: &mut Ctx, c: &PCfg, loc: bool, list: &[E]) {
                 for _ in 0..bound {
                     match it.next().map_err(|e| format!("{} after {:?}", e, v))? {
                         Some(e) => v.push(loc_raw_to_e(&e, fam)),
-                        None => return Ok(v),
+                        None => {
+                            for _ in 0..2 {
+                                if let Some(e) = it.next().map_err(|e| format!("{} when polled again after the end of {:?}", e, v))? {
+                                    return Err(format!("yielded {:?} when polled again after the end of the list {:?}", e, v));
+                                }
+                            }
+                            return Ok(v);
+                        }
                     }
                 }
                 Err("raw iterator did not end".into())
@@ -1028,7 +1077,14 @@ fn run_plumb(ctx: &mut Ctx, c: &PCfg, loc: bool, list: &[E]) {
                 for _ in 0..bound {
                     match it.next().map_err(|e| format!("{} after {:?}", e, v))? {
                         Some(e) => v.push(rng_raw_to_e(&e, fam)),
-                        None => return Ok(v),
+                        None => {
+                            for _ in 0..2 {
+                                if let Some(e) = it.next().map_err(|e| format!("{} when polled again after the end of {:?}", e, v))? {
+                                    return Err(format!("yielded {:?} when polled again after the end of the list {:?}", e, v));
+                                }
+                            }
+                            return Ok(v);
+                        }
                     }
                 }
                 Err("raw iterator did not end".into())
